@@ -107,6 +107,7 @@ SUITES = {
     'vcomposer': {'module': 'specs.vcomposer', 'spec_class': 'VComposerSpec', 'functions': 'specs.vcomposer', 'files': {}, 'obligations': 'posts'},
     'ecomposer': {'module': 'specs.ecomposer', 'spec_class': 'EComposerSpec', 'functions': 'specs.ecomposer', 'files': {}, 'obligations': 'posts'},
     'vparser': {'module': 'specs.vparser', 'spec_class': 'VParserSpec', 'functions': 'specs.vparser', 'files': {}, 'obligations': 'posts'},
+    'hwires': {'module': 'specs.hwires', 'spec_class': 'HWiresSpec', 'functions': 'specs.hwires', 'files': {}, 'obligations': 'posts'},
     'href': {'module': 'specs.href', 'spec_class': 'HRefSpec', 'functions': 'specs.href', 'files': {}, 'obligations': 'posts'},
     'compare': {'module': 'specs.compare', 'spec_class': 'CompareSpec', 'functions': 'specs.compare',
                 'files': {'Comparer': 'spydrnet/compare/compare_netlists.py'}, 'obligations': 'posts'},
@@ -125,6 +126,12 @@ def run_function(repo, cls, name, kind, params, spec_module='specs.ir', opts=Non
     importlib.import_module('specs.ir_loops')
     sm = importlib.import_module(SU['module'])
     for c_, f_ in dict(SU['files'], **getattr(sm, 'FILES', {})).items(): ct.load(c_, f_)
+    for pseudo, relpath in getattr(sm, 'MODULE_FUNCTIONS', {}).items():
+        # module-level functions are registered as static methods of a pseudo-class named after the module (the bodies are the real AST)
+        from pyvc.classes import FnInfo
+        for fname_, fi_ in ct.load_module_functions(relpath).items():
+            ct.methods[(pseudo, fname_, 'static')] = FnInfo(pseudo, fname_, 'static', fi_.node, relpath)
+        ct.bases.setdefault(pseudo, [])
     fm = importlib.import_module(SU['functions'])
     spec = getattr(sm, SU['spec_class'])(ctx, ct)
     if (cls, name, kind) in getattr(fm, 'POSITIONAL', set()): ctx.enable_positions()
@@ -182,7 +189,7 @@ def run_function(repo, cls, name, kind, params, spec_module='specs.ir', opts=Non
                 if hasattr(sm_posts, 'extra_pre'): st.pc += sm_posts.extra_pre(ctx, spec, h0)
                 st.heap['alloc'] = Store(h0['alloc'], self_, True)
                 st.fresh.append(self_)
-            args = [R(self_) if is_ir_self else ('obj', cls)]
+            args = [] if kind == 'static' else [R(self_) if is_ir_self else ('obj', cls)]
             for v, assumptions in combo:
                 args.append(v); st.pc += assumptions
             if hasattr(sm_posts, 'arg_pre'): st.pc += sm_posts.arg_pre(ctx, spec, h0, fi.qual, args)
